@@ -48,6 +48,22 @@ Theorem C06_required_subcommand_selected :
 Proof. exact accept_required_subcommand. Qed.
 Print Assumptions C06_required_subcommand_selected.
 
+(* Parsers whose construction included link_arguments attempts (apply_on="instantiate"; `with_links p ls`, each attempt with
+   its outcome): an attempt that was REJECTED (ValueError caught by the program: cycle, bad target-key form, unknown source)
+   changes nothing, so every required key of p is still enforced; an accepted link exempts exactly its target. *)
+Theorem C06_required_present_after_rejected_links :
+  forall md fuel p ls cfg,
+    (forall l, In l ls -> l_ok l = false) ->
+    wf_parser p = true -> run md fuel (with_links p ls) cfg = Ok -> missing_required md p cfg = [].
+Proof. exact accept_required_after_rejected_links. Qed.
+Print Assumptions C06_required_present_after_rejected_links.
+
+Theorem C06_required_present_with_links :
+  forall md fuel p ls cfg,
+    wf_parser p = true -> run md fuel (with_links p ls) cfg = Ok -> missing_required md (with_links p ls) cfg = [].
+Proof. exact accept_required_with_links. Qed.
+Print Assumptions C06_required_present_with_links.
+
 (* The error branch, in part: an unknown-key error (any of the three NSKeyError variants, from any nesting level) is raised
    only when the configuration does contain a key the parser does not define.  That the key NAMED by the error is such a key
    is not proved (false for the class-3 finding); it is checked case by case by the correspondence. *)
